@@ -11,111 +11,117 @@ import (
 
 type Bool struct{ v atomic.Bool }
 
-func (b *Bool) Load() bool       { vsched.PointObj("atomic.load", b); return b.v.Load() }
-func (b *Bool) Store(x bool)     { vsched.PointObj("atomic.store", b); b.v.Store(x) }
-func (b *Bool) Swap(x bool) bool { vsched.PointObj("atomic.swap", b); return b.v.Swap(x) }
+func (b *Bool) Load() bool       { vsched.AtomicPoint("atomic.load", b); return b.v.Load() }
+func (b *Bool) Store(x bool)     { vsched.AtomicPoint("atomic.store", b); b.v.Store(x) }
+func (b *Bool) Swap(x bool) bool { vsched.AtomicPoint("atomic.swap", b); return b.v.Swap(x) }
 func (b *Bool) CompareAndSwap(o, n bool) bool {
-	vsched.PointObj("atomic.cas", b)
+	vsched.AtomicPoint("atomic.cas", b)
 	return b.v.CompareAndSwap(o, n)
 }
 
 type Int32 struct{ v atomic.Int32 }
 
-func (b *Int32) Load() int32        { vsched.PointObj("atomic.load", b); return b.v.Load() }
-func (b *Int32) Store(x int32)      { vsched.PointObj("atomic.store", b); b.v.Store(x) }
-func (b *Int32) Add(x int32) int32  { vsched.PointObj("atomic.add", b); return b.v.Add(x) }
-func (b *Int32) Swap(x int32) int32 { vsched.PointObj("atomic.swap", b); return b.v.Swap(x) }
+func (b *Int32) Load() int32        { vsched.AtomicPoint("atomic.load", b); return b.v.Load() }
+func (b *Int32) Store(x int32)      { vsched.AtomicPoint("atomic.store", b); b.v.Store(x) }
+func (b *Int32) Add(x int32) int32  { vsched.AtomicPoint("atomic.add", b); return b.v.Add(x) }
+func (b *Int32) Swap(x int32) int32 { vsched.AtomicPoint("atomic.swap", b); return b.v.Swap(x) }
 func (b *Int32) CompareAndSwap(o, n int32) bool {
-	vsched.PointObj("atomic.cas", b)
+	vsched.AtomicPoint("atomic.cas", b)
 	return b.v.CompareAndSwap(o, n)
 }
 
 type Int64 struct{ v atomic.Int64 }
 
-func (b *Int64) Load() int64        { vsched.PointObj("atomic.load", b); return b.v.Load() }
-func (b *Int64) Store(x int64)      { vsched.PointObj("atomic.store", b); b.v.Store(x) }
-func (b *Int64) Add(x int64) int64  { vsched.PointObj("atomic.add", b); return b.v.Add(x) }
-func (b *Int64) Swap(x int64) int64 { vsched.PointObj("atomic.swap", b); return b.v.Swap(x) }
+func (b *Int64) Load() int64        { vsched.AtomicPoint("atomic.load", b); return b.v.Load() }
+func (b *Int64) Store(x int64)      { vsched.AtomicPoint("atomic.store", b); b.v.Store(x) }
+func (b *Int64) Add(x int64) int64  { vsched.AtomicPoint("atomic.add", b); return b.v.Add(x) }
+func (b *Int64) Swap(x int64) int64 { vsched.AtomicPoint("atomic.swap", b); return b.v.Swap(x) }
 func (b *Int64) CompareAndSwap(o, n int64) bool {
-	vsched.PointObj("atomic.cas", b)
+	vsched.AtomicPoint("atomic.cas", b)
 	return b.v.CompareAndSwap(o, n)
 }
 
 type Uint32 struct{ v atomic.Uint32 }
 
-func (b *Uint32) Load() uint32         { vsched.PointObj("atomic.load", b); return b.v.Load() }
-func (b *Uint32) Store(x uint32)       { vsched.PointObj("atomic.store", b); b.v.Store(x) }
-func (b *Uint32) Add(x uint32) uint32  { vsched.PointObj("atomic.add", b); return b.v.Add(x) }
-func (b *Uint32) Swap(x uint32) uint32 { vsched.PointObj("atomic.swap", b); return b.v.Swap(x) }
+func (b *Uint32) Load() uint32         { vsched.AtomicPoint("atomic.load", b); return b.v.Load() }
+func (b *Uint32) Store(x uint32)       { vsched.AtomicPoint("atomic.store", b); b.v.Store(x) }
+func (b *Uint32) Add(x uint32) uint32  { vsched.AtomicPoint("atomic.add", b); return b.v.Add(x) }
+func (b *Uint32) Swap(x uint32) uint32 { vsched.AtomicPoint("atomic.swap", b); return b.v.Swap(x) }
 func (b *Uint32) CompareAndSwap(o, n uint32) bool {
-	vsched.PointObj("atomic.cas", b)
+	vsched.AtomicPoint("atomic.cas", b)
 	return b.v.CompareAndSwap(o, n)
 }
 
 type Uint64 struct{ v atomic.Uint64 }
 
-func (b *Uint64) Load() uint64         { vsched.PointObj("atomic.load", b); return b.v.Load() }
-func (b *Uint64) Store(x uint64)       { vsched.PointObj("atomic.store", b); b.v.Store(x) }
-func (b *Uint64) Add(x uint64) uint64  { vsched.PointObj("atomic.add", b); return b.v.Add(x) }
-func (b *Uint64) Swap(x uint64) uint64 { vsched.PointObj("atomic.swap", b); return b.v.Swap(x) }
+func (b *Uint64) Load() uint64         { vsched.AtomicPoint("atomic.load", b); return b.v.Load() }
+func (b *Uint64) Store(x uint64)       { vsched.AtomicPoint("atomic.store", b); b.v.Store(x) }
+func (b *Uint64) Add(x uint64) uint64  { vsched.AtomicPoint("atomic.add", b); return b.v.Add(x) }
+func (b *Uint64) Swap(x uint64) uint64 { vsched.AtomicPoint("atomic.swap", b); return b.v.Swap(x) }
 func (b *Uint64) CompareAndSwap(o, n uint64) bool {
-	vsched.PointObj("atomic.cas", b)
+	vsched.AtomicPoint("atomic.cas", b)
 	return b.v.CompareAndSwap(o, n)
 }
 
 type Value struct{ v atomic.Value }
 
-func (b *Value) Load() any      { vsched.PointObj("atomic.load", b); return b.v.Load() }
-func (b *Value) Store(x any)    { vsched.PointObj("atomic.store", b); b.v.Store(x) }
-func (b *Value) Swap(x any) any { vsched.PointObj("atomic.swap", b); return b.v.Swap(x) }
+func (b *Value) Load() any      { vsched.AtomicPoint("atomic.load", b); return b.v.Load() }
+func (b *Value) Store(x any)    { vsched.AtomicPoint("atomic.store", b); b.v.Store(x) }
+func (b *Value) Swap(x any) any { vsched.AtomicPoint("atomic.swap", b); return b.v.Swap(x) }
 func (b *Value) CompareAndSwap(o, n any) bool {
-	vsched.PointObj("atomic.cas", b)
+	vsched.AtomicPoint("atomic.cas", b)
 	return b.v.CompareAndSwap(o, n)
 }
 
 type Pointer[T any] struct{ v atomic.Pointer[T] }
 
-func (b *Pointer[T]) Load() *T     { vsched.PointObj("atomic.load", b); return b.v.Load() }
-func (b *Pointer[T]) Store(x *T)   { vsched.PointObj("atomic.store", b); b.v.Store(x) }
-func (b *Pointer[T]) Swap(x *T) *T { vsched.PointObj("atomic.swap", b); return b.v.Swap(x) }
+func (b *Pointer[T]) Load() *T     { vsched.AtomicPoint("atomic.load", b); return b.v.Load() }
+func (b *Pointer[T]) Store(x *T)   { vsched.AtomicPoint("atomic.store", b); b.v.Store(x) }
+func (b *Pointer[T]) Swap(x *T) *T { vsched.AtomicPoint("atomic.swap", b); return b.v.Swap(x) }
 func (b *Pointer[T]) CompareAndSwap(o, n *T) bool {
-	vsched.PointObj("atomic.cas", b)
+	vsched.AtomicPoint("atomic.cas", b)
 	return b.v.CompareAndSwap(o, n)
 }
 
 func AddInt32(p *int32, d int32) int32 {
-	vsched.PointObj("atomic.add", p)
+	vsched.AtomicPoint("atomic.add", p)
 	return atomic.AddInt32(p, d)
 }
 func AddInt64(p *int64, d int64) int64 {
-	vsched.PointObj("atomic.add", p)
+	vsched.AtomicPoint("atomic.add", p)
 	return atomic.AddInt64(p, d)
 }
 func AddUint32(p *uint32, d uint32) uint32 {
-	vsched.PointObj("atomic.add", p)
+	vsched.AtomicPoint("atomic.add", p)
 	return atomic.AddUint32(p, d)
 }
 func AddUint64(p *uint64, d uint64) uint64 {
-	vsched.PointObj("atomic.add", p)
+	vsched.AtomicPoint("atomic.add", p)
 	return atomic.AddUint64(p, d)
 }
-func LoadInt32(p *int32) int32        { vsched.PointObj("atomic.load", p); return atomic.LoadInt32(p) }
-func LoadInt64(p *int64) int64        { vsched.PointObj("atomic.load", p); return atomic.LoadInt64(p) }
-func LoadUint32(p *uint32) uint32     { vsched.PointObj("atomic.load", p); return atomic.LoadUint32(p) }
-func LoadUint64(p *uint64) uint64     { vsched.PointObj("atomic.load", p); return atomic.LoadUint64(p) }
-func StoreInt32(p *int32, v int32)    { vsched.PointObj("atomic.store", p); atomic.StoreInt32(p, v) }
-func StoreInt64(p *int64, v int64)    { vsched.PointObj("atomic.store", p); atomic.StoreInt64(p, v) }
-func StoreUint32(p *uint32, v uint32) { vsched.PointObj("atomic.store", p); atomic.StoreUint32(p, v) }
-func StoreUint64(p *uint64, v uint64) { vsched.PointObj("atomic.store", p); atomic.StoreUint64(p, v) }
+func LoadInt32(p *int32) int32     { vsched.AtomicPoint("atomic.load", p); return atomic.LoadInt32(p) }
+func LoadInt64(p *int64) int64     { vsched.AtomicPoint("atomic.load", p); return atomic.LoadInt64(p) }
+func LoadUint32(p *uint32) uint32  { vsched.AtomicPoint("atomic.load", p); return atomic.LoadUint32(p) }
+func LoadUint64(p *uint64) uint64  { vsched.AtomicPoint("atomic.load", p); return atomic.LoadUint64(p) }
+func StoreInt32(p *int32, v int32) { vsched.AtomicPoint("atomic.store", p); atomic.StoreInt32(p, v) }
+func StoreInt64(p *int64, v int64) { vsched.AtomicPoint("atomic.store", p); atomic.StoreInt64(p, v) }
+func StoreUint32(p *uint32, v uint32) {
+	vsched.AtomicPoint("atomic.store", p)
+	atomic.StoreUint32(p, v)
+}
+func StoreUint64(p *uint64, v uint64) {
+	vsched.AtomicPoint("atomic.store", p)
+	atomic.StoreUint64(p, v)
+}
 func CompareAndSwapInt32(p *int32, o, n int32) bool {
-	vsched.PointObj("atomic.cas", p)
+	vsched.AtomicPoint("atomic.cas", p)
 	return atomic.CompareAndSwapInt32(p, o, n)
 }
 func CompareAndSwapInt64(p *int64, o, n int64) bool {
-	vsched.PointObj("atomic.cas", p)
+	vsched.AtomicPoint("atomic.cas", p)
 	return atomic.CompareAndSwapInt64(p, o, n)
 }
 func CompareAndSwapUint32(p *uint32, o, n uint32) bool {
-	vsched.PointObj("atomic.cas", p)
+	vsched.AtomicPoint("atomic.cas", p)
 	return atomic.CompareAndSwapUint32(p, o, n)
 }
